@@ -22,3 +22,11 @@ def generic_replay(rp, units_by_name):
 HASH_REC = ['--replace', '_ZN8sha1hash7getHashEPKh=rec_compress', '--replace', '_ZN7md5hash7getHashEPKh=rec_compress', '--replace', '_ZN10sha256hash7getHashEPKh=rec_compress']
 def U_hash(hbuf=2): return Unit('hash', 'hash_shim.cpp', defines=['WENCRY_VERIF_HBUF_SZ=%d' % hbuf])
 def U_hash_rec(hbuf=2): return Unit('hash_rec', 'hash_shim.cpp', defines=['WENCRY_VERIF_HBUF_SZ=%d' % hbuf], ir2c_args=HASH_REC)
+
+KERN_SRCS = ['kernel/fheader.cpp', 'kernel/cry.cpp', 'kernel/hash/hashmaster.cpp', 'kernel/hash/hashbuffer.cpp', 'kernel/hash/sha1.cpp', 'kernel/hash/md5.cpp',
+             'kernel/hash/sha256.cpp', 'kernel/multi_aes/aes/aes.cpp', 'kernel/multi_aes/aes/aesmode.cpp', 'kernel/multi_aes/multi_buffergroup.cpp', 'kernel/multi_aes/multicry.cpp']
+UF_HASH = ['--replace', '_ZN8sha1hash7getHashEPKh=uf_compress', '--replace', '_ZN7md5hash7getHashEPKh=uf_compress', '--replace', '_ZN10sha256hash7getHashEPKh=uf_compress']
+NOPRINT = []   # filled below: ResultPrint methods are replaced by empty stubs (printing is not the subject of any property)
+def U_kern(name='kern', buf=2, hbuf=2, extra=()):
+    return Unit(name, 'kern_shim.cpp', defines=['WENCRY_VERIF_BUF_SZ=%d' % buf, 'WENCRY_VERIF_HBUF_SZ=%d' % hbuf], extra_srcs=KERN_SRCS, ir2c_args=list(extra))
+KERN_ENVS = ['env_heap.c', 'env_cxx.c', 'env_file.c', 'env_io.c', 'env_sync_seq.c']
